@@ -18,6 +18,8 @@ def seeds():
 
 def run_seed(args):
     name, patch, own, checks, only_own = args
+    if not checks:
+        return name, {}
     wt = tempfile.mkdtemp(prefix=f'mx-{name}-')
     os.rmdir(wt)
     res = {}
@@ -35,6 +37,8 @@ def run_seed(args):
             lines = [l for l in p.stdout.splitlines() if l.strip().startswith(('refuted', 'undecided'))]
             res[c] = dict(rc=p.returncode, refuted=sum(1 for l in lines if l.strip().startswith('refuted')), undecided=sum(1 for l in lines if l.strip().startswith('undecided')),
                           first=(lines[0].strip()[:260] if lines else ''), wall=round(time.time() - t0, 1))
+            if p.returncode not in (0, 1):
+                res[c]['error'] = (p.stderr.strip().splitlines() or [''])[-1][:300]
         shutil.rmtree(out, ignore_errors=True)
     finally:
         subprocess.run(['git', '-C', '/repo', 'worktree', 'remove', '--force', wt], capture_output=True)
@@ -45,13 +49,17 @@ def main():
     ap = argparse.ArgumentParser()
     ap.add_argument('--only-own', action='store_true'); ap.add_argument('--jobs', type=int, default=6)
     ap.add_argument('--checks', default=','.join(f'C{i:02d}' for i in range(1, 21))); ap.add_argument('--seeds', default='')
+    ap.add_argument('--retry-errors', action='store_true', help='only re-run cells whose recorded exit code is neither 0 nor 1')
     a = ap.parse_args()
     checks = a.checks.split(',')
     ss = [s for s in seeds() if not a.seeds or s[0] in a.seeds.split(',')]
     path = os.path.join(V, 'selftest', 'matrix.json')
     results = json.load(open(path)) if os.path.exists(path) else {}
+    def todo(n):
+        if not a.retry_errors: return checks
+        return [c for c in checks if results.get(n, {}).get(c, {}).get('rc') not in (0, 1)]
     with cf.ThreadPoolExecutor(a.jobs) as ex:
-        for name, res in ex.map(run_seed, [(n, p, own, checks, a.only_own) for n, p, own in ss]):
+        for name, res in ex.map(run_seed, [(n, p, own, todo(n), a.only_own) for n, p, own in ss]):
             results.setdefault(name, {}).update(res)
             json.dump(results, open(path, 'w'), indent=1, sort_keys=True)
             own = name[:3] if name[0] == 'C' else None
